@@ -45,7 +45,9 @@ RULE = ('three real simulators on the same (block, initial registers/memories, i
         'products, multiply-accumulate), `+`, `-`, comparisons on operands of 129..260 bits with value classes all-ones, '
         'per-limb extreme patterns (0, 1, 2^64-1, 2^64-2, 2^63, ...), dense and random, 11+ cycles; default_value drawn '
         'from 0 / small / values exceeding memory, register or output bitwidths (reads of never-written memory words); '
-        '(1d) hostile names: sweep / random designs whose inputs, outputs, registers, '
+        'every simulator kind is also built two or three times per block in the process (bare initial state with every '
+        'keyword omitted on the working block, then the stated initial state), after earlier instances on this block and '
+        'on sibling blocks sharing its memory ids have run; (1d) hostile names: sweep / random designs whose inputs, outputs, registers, '
         'internal wires, constants and memories are renamed (WireVector.name setter) from a pool of Python keywords and '
         'builtins, every identifier found in the code FastSimulation and CompiledSimulation emit NOW for a sample design '
         '(d, regs, outs, mem_ws, carry, tmplo, lookup, uint64_t, w<uid>_<name> ...), the sanitizers\' temporaries and their '
@@ -645,6 +647,73 @@ def run_python_sims(case):
     return res
 
 
+def run_plain(kind, case, bare):
+    """one more simulator instance of `kind`, built the way a user would: the block is the working block
+    and every keyword whose value is the default is OMITTED (bare: no initial maps, no default_value, no
+    tracer argument at all)"""
+    block = case['block']
+    cls = {'sim': pyrtl.Simulation, 'fast': pyrtl.FastSimulation, 'compiled': pyrtl.CompiledSimulation}[kind]
+    kw = {}
+    if not bare:
+        if case['regmap']:
+            kw['register_value_map'] = dict(case['regmap'])
+        if case['memmap']:
+            kw['memory_value_map'] = (sim_memmap(block, case['memmap']) if kind == 'sim'
+                                      else {m: dict(c) for m, c in case['memmap'].items()})
+        if case['dflt'] != 0:
+            kw['default_value'] = case['dflt']
+    try:
+        with pyrtl.set_working_block(block, no_sanity_check=True):
+            s = cls(**kw)
+            for step in case['inputs']:
+                s.step(dict(step))
+            out = ({k: list(v) for k, v in s.tracer.trace.items()},
+                   final_mems(case, s.inspect_mem, 0 if (bare or kind == 'compiled') else case['dflt']))
+        del s
+        return out
+    except Exception as e:  # noqa
+        return 'EXC %s: %s' % (type(e).__name__, str(e)[:200])
+
+
+def repeat_instances(ctx, case, with_compiled):
+    """every simulator kind is built MORE THAN ONCE on the same block in this process -- after earlier
+    instances (of this block, and of sibling blocks sharing its memory ids) have run and written memories
+    and registers: twice from the bare initial state with all keywords omitted, then once more from the
+    case's stated initial state.  Each instance must equal a Simulation from the same initial state."""
+    ref_bare = run_plain('sim', case, True)
+    if isinstance(ref_bare, str):
+        ctx.spec_violation('sim:raises:' + ref_bare.split()[1].rstrip(':'),
+                           'Simulation() with all keywords omitted raised: ' + ref_bare, replay_dict(ctx, case))
+        return
+    main_ref = case['py']['sim']
+    excl = case['dflt'] != 0 and case['has_mem']
+    plan = [('sim', True, 2), ('fast', True, 1), ('fast', True, 2), ('fast', False, 3), ('sim', False, 3)]
+    if with_compiled:
+        plan += [('compiled', True, 1), ('compiled', True, 2)] + ([] if excl else [('compiled', False, 3)])
+    for kind, bare, nth in plan:
+        got = run_plain(kind, case, bare)
+        ref = ref_bare if bare else main_ref
+        what = '%s instance #%d of this block in the process, %s' % (
+            {'sim': 'Simulation', 'fast': 'FastSimulation', 'compiled': 'CompiledSimulation'}[kind], nth,
+            'all keywords omitted (bare initial state)' if bare else 'stated initial state, default keywords omitted')
+        ctx.count('repeat_instances', '%s %s' % (kind, 'bare' if bare else 'stated'))
+        sig = '%s:instance-%s' % (kind, 'bare' if bare else 'stated')
+        if isinstance(got, str):
+            ctx.spec_violation(sig + ':raises:' + got.split()[1].rstrip(':'), what + ' raised: ' + got,
+                               replay_dict(ctx, case, {'instance': what}))
+            continue
+        if isinstance(ref, str):
+            continue
+        bad = [nm for nm in got[0] if nm in ref[0] and got[0][nm] != ref[0][nm]
+               and not (kind == 'compiled' and nm in truncated_probes(case['block']))]
+        if bad or got[1] != ref[1]:
+            nm = sorted(bad)[0] if bad else None
+            ctx.spec_violation(sig, what + ' differs from a Simulation from the same initial state: ' + (
+                'wire %s %s instead of %s' % (nm, got[0][nm][:6], ref[0][nm][:6]) if nm else
+                'final memory contents %s instead of %s' % (str(got[1])[:150], str(ref[1])[:150])),
+                replay_dict(ctx, case, {'instance': what, 'wire': nm}))
+
+
 def run_compiled(case):
     block, regmap, memmap, inputs, dflt = (case['block'], case['regmap'], case['memmap'],
                                            case['inputs'], case['dflt'])
@@ -999,6 +1068,12 @@ def run(ctx):
                         regmap=regmap, memmap=memmap, inputs=inputs, dflt=dflt, has_mem=has_mem,
                         ops=list(d.ops), renamed=getattr(d, 'renamed', None) if variant == 'pre' else None)
             case['py'] = run_python_sims(case)
+            if (has_mem or regmap or block.wirevector_subset(pyrtl.Register)) and len(block.logic) <= 400 \
+                    and not isinstance(case['py']['sim'], str):
+                n_comp = sum(1 for c in cases if c.get('repeat_compiled'))
+                case['repeat_compiled'] = bool(has_mem and len(block.logic) <= 150
+                                               and n_comp < (14 if quick else 90) and len(cases) % 3 == 0)
+                repeat_instances(ctx, case, case['repeat_compiled'])
             if 'fast_obj' in case:                # keep the flags, not the generated program (memory)
                 if len(block.logic) <= MAX_COQ_NETS:          # only compared for Coq-evaluated cases
                     case['src_flags'] = fast_elision_from_source(case)
